@@ -161,6 +161,39 @@ fn run_multiexp<C: Curve>(v: &J, name: &str) -> Res {
     Ok(())
 }
 
+fn run_vec_commit(v: &J) -> Res {
+    use concordium_base::pedersen_commitment::{CommitmentKey, Randomness, VecCommitmentKey};
+    let n = v["n"].as_u64().unwrap() as usize;
+    let gs: Vec<G1> = (0..n).map(|i| G1::hash_to_group(format!("vec commit generator {}", i).as_bytes()).unwrap()).collect();
+    let h = G1::hash_to_group(b"vec commit blinding base").unwrap();
+    let values: Vec<<G1 as Curve>::Scalar> = v["values"].as_array().unwrap().iter().map(|t| scalar_token::<G1>(t.as_str().unwrap())).collect();
+    let r = scalar_token::<G1>(v["r"].as_str().unwrap());
+    let key = VecCommitmentKey::new(gs.clone(), h);
+    let got = key.hide(&values, &Randomness::new(r));
+    let ok = v["ok"].as_bool().unwrap();
+    if got.is_some() != ok {
+        return fail("vector commitment exists iff there are at most as many values as generators", json!(ok), json!(got.is_some()));
+    }
+    if let Some(c) = got {
+        let mut exp = h.mul_by_scalar(&r);
+        for (x, g) in values.iter().zip(gs.iter()) {
+            exp = exp.plus_point(&g.mul_by_scalar(x));
+        }
+        if c.0 != exp {
+            return fail(&format!("vector commitment to {} values under {} generators = sum v_i g_i + r h", values.len(), n), json!(hex::encode(to_bytes(&exp))), json!(hex::encode(to_bytes(&c.0))));
+        }
+    }
+    if values.len() == 1 {
+        // the single-value commitment key agrees with the one-generator vector key
+        let ck = CommitmentKey::new(gs[0], h);
+        let c1 = ck.hide_worker(&values[0], &r);
+        if c1.0 != gs[0].mul_by_scalar(&values[0]).plus_point(&h.mul_by_scalar(&r)) {
+            return fail("commitment = v g + r h", J::Null, J::Null);
+        }
+    }
+    Ok(())
+}
+
 fn limbs_of(v: &J) -> [u64; 4] {
     let a = v.as_array().unwrap();
     let mut l = [0u64; 4];
@@ -604,6 +637,19 @@ pub fn main(args: &[String]) -> i32 {
                 Ok(())
             }
             "wnaf" => run_wnaf(v, stats),
+            "vec_commit" => run_vec_commit(v),
+            "threshold" => {
+                let n = v["n"].as_u64().unwrap() as usize;
+                let ok = v["ok"].as_bool().unwrap();
+                let got = Threshold::try_from(n).ok();
+                if got.is_some() != ok || got.map_or(false, |t| usize::from(u8::from(t)) != n) {
+                    return fail(&format!("Threshold::try_from({}usize)", n), json!(ok), json!(got.map(|t| u8::from(t))));
+                }
+                if n <= 255 && (Threshold::try_new(n as u8).is_ok() != ok || Threshold::try_from(n as u8).is_ok() != ok) {
+                    return fail(&format!("Threshold::try_new({})", n), json!(ok), json!(!ok));
+                }
+                Ok(())
+            }
             "shamir" => {
                 *stats.entry(format!("shamir:{}", v["expect"].as_str().unwrap())).or_default() += 1;
                 for pmap in 0..3 {
